@@ -321,9 +321,27 @@ impl<'i> Attributes<'i> {
 impl Serialize for &mut Attributes<'_> {
     #[inline]
     fn into_bytes(self, output_handler: &mut dyn FnMut(&[u8])) -> Result<(), RewritingError> {
-        for attr in self.as_mut_vec() {
+        let items = self.as_mut_vec();
+
+        for (i, attr) in items.iter().enumerate() {
             output_handler(b" ");
             attr.into_bytes(output_handler)?;
+
+            // NOTE: the name of a parsed attribute can start with `=` (e.g. `<a b/=c>`).
+            // Separated with just a space from a preceding attribute that has no value
+            // it would become the value of that attribute (`b =c`).
+            let is_valueless = attr
+                .raw
+                .as_ref()
+                .is_some_and(|raw| raw.len() == attr.name.len());
+
+            if is_valueless
+                && items
+                    .get(i + 1)
+                    .is_some_and(|next| next.name.first() == Some(&b'='))
+            {
+                output_handler(b"=\"\"");
+            }
         }
         Ok(())
     }
